@@ -100,15 +100,27 @@ _RD_TEXT = {"NS": "ns%d.other.", "A": "10.0.0.%d", "TXT": '"t%d"', "AAAA": "2001
 _cache = {}
 
 
+def split_type(ty):
+    """ "RRSIG/A" is the RRSIG rdataset covering A."""
+    if "/" in ty:
+        a, b = ty.split("/")
+        return dns.rdatatype.from_text(a), dns.rdatatype.from_text(b)
+    return dns.rdatatype.from_text(ty), dns.rdatatype.NONE
+
+
 def make_rdata(ty, rd):
     key = (ty, tuple(rd))
     r = _cache.get(key)
     if r is None:
+        rdtype, covers = split_type(ty)
         if ty == "SOA":
             text = "ns.other. admin.other. %d 3600 600 86400 300" % (rd[0] * 65536 + rd[1])
+        elif rdtype == dns.rdatatype.RRSIG:
+            # the signer is outside the zone so that relativization never changes the rdata
+            text = "%s 8 2 300 20300101000000 20200101000000 %d signer.other. AAAA" % (dns.rdatatype.to_text(covers), 1000 + rd[0])
         else:
             text = _RD_TEXT[ty] % rd[0]
-        r = dns.rdata.from_text(dns.rdataclass.IN, ty, text)
+        r = dns.rdata.from_text(dns.rdataclass.IN, rdtype, text)
         _cache[key] = r
     return r
 
@@ -121,7 +133,7 @@ def rd_id(ty, rd):
             return [rd.serial >> 16, rd.serial & 0xFFFF]
         except Exception:
             return [-1, -1]
-    if ty in _RD_TEXT:
+    if ty in _RD_TEXT or ty.startswith("RRSIG/"):
         for k in range(0, 12):
             if make_rdata(ty, [k]) == rd:
                 return [k]
@@ -192,7 +204,7 @@ def build_message(msg, req, query, relativize, via, from_wire_origin, multi=True
         m.question = [dns.rrset.RRset(qname, dns.rdataclass.IN, qtype)]
     m.answer = []
     for n, ty, ttl, rd in msg["rrs"]:
-        rrs = dns.rrset.RRset(owner(n, absolute), dns.rdataclass.IN, dns.rdatatype.from_text(ty))
+        rrs = dns.rrset.RRset(owner(n, absolute), dns.rdataclass.IN, *split_type(ty))
         rrs.add(make_rdata(ty, rd), ttl)
         m.answer.append(rrs)
     if via == "direct":
@@ -294,63 +306,80 @@ def exit_event(zone, relativize):
     return {"op": "exit", "zone": project_zone(zone, relativize), "open": open_txns, "wtxn": wtxn, "usable": usable}
 
 
-def replay_query(script, zclass, relativize, tid, try_first, use_async=False, tail="none"):
-    """The same transfer through dns.query.inbound_xfr: scripted sockets (dns.query.socket_factory), real framing,
-    real message parsing, the real read loop.  Inbound.process_message is wrapped (in this process only) to record
-    the per-message events.  With try_first the UDP attempt that ends in UseTCP is followed by the library's own
-    TCP retry, served with an AXFR-style answer of the target; that second transfer is a trace of its own."""
+def replay_query(script, zclass, relativize, tid, umode="", use_async=False, tail="none"):
+    """The same transfer through dns.query.inbound_xfr / dns.asyncquery.inbound_xfr: scripted sockets, real framing,
+    real message parsing, the real read loop, the real choice of transports for udp_mode in {NEVER, TRY_FIRST, ONLY}.
+    Inbound.process_message is wrapped (in this process only) to record the per-message events.
+
+    What the scripted server offers is a list of PHASES, one per socket the library opens:
+      AXFR request, any udp_mode          [script over TCP]          (udp_mode only selects the transport of an IXFR)
+      IXFR, UDP script, ONLY              [script over UDP]
+      IXFR, UDP script, TRY_FIRST         [script over UDP, AXFR-style answer of the target over TCP]
+      IXFR, TCP script, NEVER             [script over TCP]
+      IXFR, TCP script, TRY_FIRST         [SOA-only "use TCP" answer over UDP, script over TCP]
+    Every phase the library actually reaches is a transfer (trace) of its own: when the next socket is requested the
+    zone is observed (exit event of the previous trace, initial zone of the next).  If the library opens no socket at
+    all, the first trace consists of the exit event alone."""
     del _CREATED[:]
     init = sorted([r[0], r[1], r[2], list(r[3])] for r in script["zone0"])
     zone = make_zone(zclass, relativize, init)
     del _CREATED[:]
     req, udp = script["req"], bool(script["udp"])
+    if not umode:
+        umode = "NEVER" if not udp else "ONLY"
     base = list(script["base"])
     target = sorted([r[0], r[1], r[2], list(r[3])] for r in script["target"])
     msgs = [{"rcode": m["rcode"], "q": m["q"], "rrs": [[r[0], r[1], r[2], list(r[3])] for r in m["rrs"]]}
             for m in script["msgs"]]
-    mode = ("aquery" if use_async else "query") + ("-tryfirst" if try_first else "")
-    trace = {"tid": tid, "zclass": zclass, "rel": relativize, "via": mode, "req": req, "udp": udp, "base": base,
-             "init": init, "zone0": project_zone(zone, relativize), "msgs": msgs, "kind": script["kind"],
-             "fault": script["fault"]["k"], "target": target, "tail": tail, "ev": []}
-    traces = [trace]
-    serial = (base[0] * 65536 + base[1]) if req == "ixfr" else None
-    query, _ = dns.xfr.make_query(zone, serial)
+    mode = "aquery" if use_async else "query"
     soa = [r for r in target if r[1] == "SOA"]
     rest = [r for r in target if r[1] != "SOA"]
-    tcp_msgs = [{"rcode": 0, "q": "ok", "rrs": soa + rest[:1]}, {"rcode": 0, "q": "none", "rrs": rest[1:] + soa}]
-    current = {"trace": trace, "n": 0}
+    main = {"udp": udp, "msgs": msgs, "kind": script["kind"], "fault": script["fault"]["k"], "tail": tail}
+    phases = [main]
+    if req == "ixfr" and umode == "TRY_FIRST":
+        if udp:
+            phases.append({"udp": False, "kind": "axfrstyle", "fault": "none", "tail": "none",
+                           "msgs": [{"rcode": 0, "q": "ok", "rrs": soa + rest[:1]}, {"rcode": 0, "q": "none", "rrs": rest[1:] + soa}]})
+        else:
+            phases.insert(0, {"udp": True, "kind": "usetcp", "fault": "none", "tail": "none",
+                              "msgs": [{"rcode": 0, "q": "ok", "rrs": soa}]})
+    serial = (base[0] * 65536 + base[1]) if req == "ixfr" else None
+    query, _ = dns.xfr.make_query(zone, serial)
 
     def frames(ms):
         return [build_message(m, req, query, relativize, "wire-bytes", None) for m in ms]
 
-    # how the TCP connection ends once the scripted messages are out: "none" = clean EOF on the message boundary,
-    # "len" = EOF after one octet of the next length prefix, "body" = EOF in the middle of the next message
-    if tail == "none" or udp:
-        tail_bytes = b""
-    else:
-        nxt = frames([{"rcode": 0, "q": "none", "rrs": (msgs[-1]["rrs"] if msgs and msgs[-1]["rrs"] else soa)}])[0]
-        tail_bytes = b"\x00" if tail == "len" else struct.pack("!H", len(nxt)) + nxt[:len(nxt) // 2]
-    sockets = []
+    def new_trace(k):
+        ph = phases[k] if k < len(phases) else {"udp": False, "kind": "unscripted-extra-socket", "fault": "none", "tail": "none", "msgs": []}
+        return {"tid": tid if k == 0 else "%s.p%d" % (tid, k + 1), "zclass": zclass, "rel": relativize, "via": mode, "umode": umode,
+                "req": req, "udp": ph["udp"], "base": base, "init": init if k == 0 else project_zone(zone, relativize),
+                "zone0": project_zone(zone, relativize), "msgs": ph["msgs"], "kind": ph["kind"], "fault": ph["fault"],
+                "target": target, "tail": ph["tail"], "ev": []}
 
+    traces = [new_trace(0)]
+    current = {"k": -1, "n": 0}
+    sockets = []
     Sock = AsyncScripted if use_async else ScriptedSocket
 
     def factory(af, kind, proto=0):
-        if kind == socket.SOCK_DGRAM:
-            sock = Sock(kind, frames(msgs), current["trace"]["ev"])
-        elif udp:
-            # the library falls back to TCP after UseTCP: the first transfer is over; observe the zone now
-            first = current["trace"]
-            first["ev"].append(exit_event(zone, relativize))
-            second = {"tid": tid + ".tcp", "zclass": zclass, "rel": relativize, "via": mode, "req": req, "udp": False,
-                      "base": base, "init": first["zone0"], "zone0": project_zone(zone, relativize), "msgs": tcp_msgs,
-                      "kind": "axfrstyle", "fault": "none", "target": target, "ev": []}
+        current["k"] += 1
+        k = current["k"]
+        if k > 0:
+            # the library moves on to another transport: the previous transfer is over; observe the zone now
+            traces[-1]["ev"].append(exit_event(zone, relativize))
             del _CREATED[:]
-            traces.append(second)
-            current["trace"] = second
-            current["n"] = 0
-            sock = Sock(kind, frames(tcp_msgs), second["ev"])
-        else:
-            sock = Sock(kind, frames(msgs), current["trace"]["ev"], tail_bytes)
+            traces.append(new_trace(k))
+        tr = traces[-1]
+        tr["sock"] = "udp" if kind == socket.SOCK_DGRAM else "tcp"
+        current["n"] = 0
+        # how the TCP connection ends once the scripted messages are out: "none" = clean EOF on the message boundary,
+        # "len" = EOF after one octet of the next length prefix, "body" = EOF in the middle of the next message
+        tail_bytes = b""
+        if tr["tail"] != "none" and kind != socket.SOCK_DGRAM:
+            ms = tr["msgs"]
+            nxt = frames([{"rcode": 0, "q": "none", "rrs": (ms[-1]["rrs"] if ms and ms[-1]["rrs"] else soa)}])[0]
+            tail_bytes = b"\x00" if tr["tail"] == "len" else struct.pack("!H", len(nxt)) + nxt[:len(nxt) // 2]
+        sock = Sock(kind, frames(tr["msgs"]), tr["ev"], tail_bytes)
         sockets.append(sock)
         return sock
 
@@ -373,15 +402,11 @@ def replay_query(script, zclass, relativize, tid, try_first, use_async=False, ta
         finally:
             rec["stx"], rec["st"] = state_of(self)
             rec["txn"] = getattr(self, "txn", None) is not None
-            current["trace"]["ev"].append(rec)
+            traces[-1]["ev"].append(rec)
 
     dns.xfr.Inbound.process_message = recording_pm
     dns.query.socket_factory = factory
     try:
-        if udp:
-            umode = dns.query.UDPMode.TRY_FIRST if try_first else dns.query.UDPMode.ONLY
-        else:
-            umode = dns.query.UDPMode.NEVER
         try:
             if use_async:
                 class ScriptedBackend(dns.asyncbackend.Backend):
@@ -392,10 +417,10 @@ def replay_query(script, zclass, relativize, tid, try_first, use_async=False, ta
                                           ssl_context=None, server_hostname=None):
                         return factory(af, socktype, proto)
 
-                amode = dns.asyncquery.UDPMode(umode.value)
-                asyncio.run(dns.asyncquery.inbound_xfr("10.0.0.53", zone, query, udp_mode=amode, backend=ScriptedBackend()))
+                asyncio.run(dns.asyncquery.inbound_xfr("10.0.0.53", zone, query, udp_mode=getattr(dns.asyncquery.UDPMode, umode),
+                                                       backend=ScriptedBackend()))
             else:
-                dns.query.inbound_xfr("10.0.0.53", zone, query, udp_mode=umode)
+                dns.query.inbound_xfr("10.0.0.53", zone, query, udp_mode=getattr(dns.query.UDPMode, umode))
             outcome = ""
         except Stuck:
             raise
@@ -406,23 +431,26 @@ def replay_query(script, zclass, relativize, tid, try_first, use_async=False, ta
         dns.query.socket_factory = orig_factory
         for sock in sockets:
             (sock._sync if use_async else sock).close()
-    last = current["trace"]
+    last = traces[-1]
     last["ev"].append(exit_event(zone, relativize))
-    last["raised"] = outcome
+    last["raised"] = outcome          # what inbound_xfr itself did: "" = returned normally
+    last["reached"] = len(sockets)    # sockets the library opened
     # the request that went out: an IXFR query carries the base serial in its authority section
     for sock in sockets[:1]:
         if sock.sent:
             wire = sock.sent[0] if sock.type == socket.SOCK_DGRAM else bytes(sock.sent[0])[2:]
             q = dns.message.from_wire(wire)
-            trace["sent"] = {"rdtype": dns.rdatatype.to_text(q.question[0].rdtype),
-                             "serial": limbs(dns.xfr.extract_serial_from_query(q))}
-    trace["extra"] = traces[1:]
-    return trace
+            traces[0]["sent"] = {"rdtype": dns.rdatatype.to_text(q.question[0].rdtype),
+                                 "serial": limbs(dns.xfr.extract_serial_from_query(q))}
+    traces[0]["extra"] = traces[1:]
+    return traces[0]
 
 
-def replay(script, zclass, relativize, via, tid, tail="none"):
+def replay(script, zclass, relativize, via, tid, tail="none", umode=""):
     if via in ("query", "query-tryfirst", "aquery", "aquery-tryfirst"):
-        return replay_query(script, zclass, relativize, tid, via.endswith("-tryfirst"), via.startswith("aquery"), tail)
+        if via.endswith("-tryfirst"):
+            umode = "TRY_FIRST"
+        return replay_query(script, zclass, relativize, tid, umode, via.startswith("aquery"), tail)
     del _CREATED[:]
     init = sorted([r[0], r[1], r[2], list(r[3])] for r in script["zone0"])
     zone = make_zone(zclass, relativize, init)
@@ -482,6 +510,7 @@ def _alarm(signum, frame):
 def run_job(job):
     script, zclass, relativize, via, tid = job[:5]
     tail = job[5] if len(job) > 5 else "none"
+    umode = job[6] if len(job) > 6 else ""
     # hang detection without wall-clock time: blocking waits raise Stuck through the threading shim above, busy
     # loops run into a CPU-time limit; the wall-clock timer is a very large last resort only
     try:
@@ -492,7 +521,7 @@ def run_job(job):
     except ValueError:  # not in the main thread
         pass
     try:
-        return replay(script, zclass, relativize, via, tid, tail)
+        return replay(script, zclass, relativize, via, tid, tail, umode)
     except (Exception, Stuck) as e:  # a driver failure becomes an event nobody matches
         return {"tid": tid, "zclass": zclass, "rel": relativize, "via": via, "req": "axfr", "udp": False, "base": [],
                 "init": [], "zone0": [], "msgs": [], "kind": "driver-error", "fault": "none", "target": [],
